@@ -109,8 +109,16 @@ CHECKS["C13"] = (
     "Feature/Transcript/CDS.incorporate_variants reproduce the edited reference (CDS also in frame). F4 (left-to-right collection "
     "lift-over) recorded with its region.",
     _NOTE + " The VCF grouping clause is outside the claim (PyVCF absent).", "DESIGN.md §3 C13")
+CHECKS["C20"] = (
+    _CH,
+    "Genes of 2 (quick) / 3 (thorough) transcripts and feature collections of 2-3 features with UNBOUNDED symbolic coordinates and "
+    "CDS lengths (ties included), coding pattern / primary flags / exon counts / strands driver-enumerated: span = (min,max), "
+    "is_coding = any, primary = flagged (two flags refused) else argmax (CDS, spliced length, earliest) as a symbolic term, merged "
+    "transcript/CDS/feature cover exactly the union (probe position), types = union; annotation collections iterate sorted by "
+    "start (stable) with inferred bounds; primary sequence accessors on a concrete genome.",
+    _NOTE, "DESIGN.md §3 C20")
 for _p in [ "C09", "C10", "C11", "C17",
-           "C19", "C20"]:
+           "C19"]:
     NOT_APPLICABLE[_p] = "check not built yet (build in progress; see DESIGN.md §3 for the planned solver-based check)"
 NOT_APPLICABLE["C12"] = ("GenBank writer cannot emit a feature on the installed Biopython (SeqFeature(strand=) TypeError), the "
                          "parser needs the absent PyVCF module, and the oracle is third-party text parsing (Bio.SeqIO): nothing "
